@@ -15,11 +15,11 @@ Definition in_fragment (t : node) : bool :=
   | None => false
   end.
 
-(* does a top-level statement (re)bind one of write, toa, aton?  (assignments inside function bodies
+(* does a top-level statement (re)bind one of write, toa, aton, read?  (assignments inside function bodies
    bind locals) *)
 Fixpoint rebinds_builtin (t : node) : bool :=
   match t with
-  | NAssign (NName g) e => (match bop_of_name g with Some _ => true | None => false end) || rebinds_builtin e
+  | NAssign (NName g) e => (match bop_of_name g with Some _ => true | None => String.eqb g "read" end) || rebinds_builtin e
   | NAssign _ e => rebinds_builtin e
   | NBlock l => existsb rebinds_builtin l
   | NList l => existsb rebinds_builtin l
@@ -28,7 +28,7 @@ Fixpoint rebinds_builtin (t : node) : bool :=
   | NWhile c b => rebinds_builtin c || rebinds_builtin b
   | NFor vs its b =>
       existsb (fun v => match v with
-                        | NName g => match bop_of_name g with Some _ => true | None => false end
+                        | NName g => match bop_of_name g with Some _ => true | None => String.eqb g "read" end
                         | _ => false
                         end) vs || existsb rebinds_builtin its || rebinds_builtin b
   | NBin _ l r => rebinds_builtin l || rebinds_builtin r
